@@ -371,7 +371,13 @@ func (state *inflate) readLitDistLens(ctx *dynamicHeaderReader, hdist, hlit int)
 
 			i := int(3 + ret)
 
-			if curr+i > end || prev == -1 {
+			// entries left to fill: the rest of the lit/len lengths (if not
+			// yet switched to the distance lengths) plus the distance lengths
+			remaining := end - curr
+			if curr <= int(litTableSize+hlit) {
+				remaining = int(litTableSize+hlit) - curr + hdist + 1
+			}
+			if i > remaining || prev == -1 {
 				err = errInvalidBlock
 				goto END
 			}
